@@ -1,12 +1,52 @@
 import FV.Props.C03
-/-! # C18 — see `Props/C03.lean` for the shared emplacement contract (first instalment). -/
+/-! # C18 — a failed in-place assignment leaves a valid value behind
+
+`assign_in_place` runs the emplacer unchecked on the bytes of the current value. The property holds for the container
+emplacers (they write a consistent header before and after filling), and the theorems below prove that for every
+element / item type. It does **not** hold for every generated `…Init`: the code writes tag and sized fields before it
+knows whether the last field's emplacer will succeed (known findings F17, F8c in `known_findings.json`); the model
+follows the code, and `C18_nested_enum_counterexample` proves the failure in the model for the recorded witness, so the
+general statement stays unproved (`_partial`) on purpose. -/
 namespace FV.Props
 open FV
+
+/-- **`FlatVec` from an iterator**: whatever the outcome — also `Err(InsufficientSize)` — the bytes validate. -/
 theorem C18_vec_from_iterator_partial (et : Ty) (hL : Law et.dict) (sz : Nat) (hsz : et.dict.sized = some sz)
     (l : LenTy) (hl : l.Law) (xs : List Bytes) (hxs : ∀ x ∈ xs, ValidImage et.dict x) (s : Slice)
     (hal : s.addr % max l.align et.dict.align = 0) (hlen : max l.size et.dict.align ≤ s.len) :
     ∃ o, emplaceU (.vec et l) (.vecIter xs) s = .ok o ∧ o.bytes.length = s.len ∧
       (vecD et.dict l).validateU ⟨s.addr, o.bytes⟩ = .ok () ∧
       (∀ e, o.res = .error e → e.kind = .insufficientSize ∨ e.kind = .badAlign) :=
-  C03_vec_from_iterator_partial et hL sz hsz l hl xs hxs s hal hlen
+  C03_vec_from_iterator et hL sz hsz l hl xs hxs s hal hlen
+
+/-- **`FlexVec` from an iterator, for every item type and every item initialiser**: whatever the outcome — an item
+that does not fit, an item whose own emplacer fails, an offset that the length type cannot represent — the chain that
+is left behind validates (it holds the items that were completed). -/
+theorem C18_flex_from_iterator_partial (it : Ty) (h : it.WF) (l : LenTy) (hl : l.Law) (items : List Init)
+    (hw : InitWTL it items) (s : Slice) (hal : s.addr % (Ty.flex it l).dict.align = 0)
+    (hlen : (Ty.flex it l).dict.minSize ≤ s.len) :
+    ∃ o, emplaceU (.flex it l) (.flexIter items) s = .ok o ∧ o.bytes.length = s.len ∧
+      (Ty.flex it l).dict.validateU ⟨s.addr, o.bytes⟩ = .ok () ∧
+      (∀ e, o.res = .error e → e.kind = .insufficientSize ∨ e.kind = .badAlign) := by
+  obtain ⟨o, h1, h2, h3⟩ := emplace_flexIter_spec it (Ty.law it h) (Ty.frameLaw it h) l hl items
+    (emplaceU_okL items it h hw) s hal hlen
+  exact ⟨o, h1, h2.len, h3, h2.kinds⟩
+
+/-- non-vacuity: `FlexVec<FlatVec<u8,u16>, u16>` from two items into 10 bytes: the second does not fit, the first stays -/
+example : emplaceU (.flex (.vec u8 L16) L16) (.flexIter [.vecArr [[1],[2]], .vecArr [[3],[4],[5],[6],[7]]]) ⟨0, [9,9,9,9,9,9,9,9,9,9]⟩ =
+    .ok ⟨[255,255,2,0,1,2,9,9,0,0], .error ⟨.insufficientSize, 8⟩⟩ := by decide +kernel
+
+/-! ### the known finding, in the model -/
+def Inner : Ty := .uenum L8 [[], [.vec u8 L16]]
+def Outer : Ty := .uenum L8 [[u32], [u8, Inner]]
+
+/-- **C18 is false of the code as it stands (finding F17), shown in the model.** An 8-byte `Outer::A(0x07070707)` is valid;
+assigning `Outer::B(1, Inner::Y(flat_vec![1,2,3]))` fails with `InsufficientSize` — and leaves tag `B` and field `1`
+written in front of stale bytes that are not a valid `Inner`. The same input is replayed against the implementation by
+the correspondence check (corpus line "F17 witness"). -/
+theorem C18_nested_enum_counterexample :
+    Outer.dict.validate ⟨0, [0,0xEE,0xEE,0xEE,7,7,7,7]⟩ = .ok () ∧
+    assign Outer (.uenum 1 [[1]] (some (.uenum 1 [] (some (.vecArr [[1],[2],[3]]))))) ⟨0, [0,0xEE,0xEE,0xEE,7,7,7,7]⟩ =
+      .ok ⟨[1,0xEE,0xEE,0xEE,1,7,7,7], .error ⟨.insufficientSize, 2⟩⟩ ∧
+    Outer.dict.validate ⟨0, [1,0xEE,0xEE,0xEE,1,7,7,7]⟩ = .err ⟨.invalidEnumTag, 6⟩ := by decide +kernel
 end FV.Props
